@@ -3,6 +3,7 @@ package props
 import (
 	"bytes"
 	"fmt"
+	"strings"
 
 	"github.com/fluhus/biostuff/formats/fastq"
 
@@ -130,6 +131,37 @@ func runC02(r *core.Run) {
 				return core.Failf("text %q decodes to %s, want %s", data, renderObs(got), renderObs(want))
 			}
 			return core.Outcome{Class: fmt.Sprint("records=", len(c.Recs)), Nontrivial: len(c.Recs) > 0, Evals: 2*len(c.Recs) + 1}
+		})
+
+	core.Clause(r, "all-bytes", core.Opts{Rule: "every byte value except CR, LF in the name, the sequence and the qualities (alone, first, middle, last), as the middle record of three; non-trivial = all"},
+		func(emit func(c02List) bool) {
+			for b := 0; b < 256; b++ {
+				if b == '\r' || b == '\n' {
+					continue
+				}
+				for _, v := range []string{string([]byte{byte(b)}), string([]byte{byte(b), 'a'}), string([]byte{'a', byte(b), 'c'}), string([]byte{'a', byte(b)})} {
+					plain := strings.Repeat("I", len(v))
+					for _, rc := range []fqRec{{core.S(v), "ACGT", "IIII"}, {"n", core.S(v), core.S(plain)}, {"n", core.S(strings.Repeat("A", len(v))), core.S(v)}, {core.S(v), core.S(v), core.S(v)}} {
+						if !emit(c02List{[]fqRec{{"first", "AC", "II"}, rc, {"last", "", ""}}}) {
+							return
+						}
+					}
+				}
+			}
+		},
+		func(c c02List) core.Outcome {
+			data, fail := writeFastqChecked(c.Recs)
+			if fail != "" {
+				return core.Failf("%s", fail)
+			}
+			got, p := readFastqAll(data)
+			if p != "" {
+				return core.Failf("Reader panicked/hung on %q: %s", data, p)
+			}
+			if want := wantFastq(c.Recs); !sameShape(got, want) {
+				return core.Failf("text %q decodes to %s, want %s", data, renderObs(got), renderObs(want))
+			}
+			return core.Outcome{Class: "ok", Nontrivial: true, Evals: 7}
 		})
 
 	var lens []int
